@@ -338,7 +338,7 @@ theorem bracketV6_nginx_addr {h : Str} (hp : parseIP h = true) (hc : ':' ∈ h) 
   have hu : hasUnixPrefix ('[' :: (h ++ [']'])) = false := by
     unfold hasUnixPrefix
     cases hl : (h ++ [']']) <;> simp [List.take, lowerByte, isUpper] <;> intro e <;> simp at e
-  unfold bracketV6
+  unfold bracketV6 nginxAddr
   rw [contains_true_iff.mpr hc, hp]
   simp only [Bool.and_self, if_true]
   unfold nginxAddrOk
@@ -346,6 +346,111 @@ theorem bracketV6_nginx_addr {h : Str} (hp : parseIP h = true) (hc : ':' ∈ h) 
   simp [ngxInet6Url, hf, h6]
 
 theorem bracketV6_id {v : Str} (h : (v.contains ':' && parseIP v) = false) : bracketV6 v = v := by
-  unfold bracketV6; rw [h]; rfl
+  unfold bracketV6 nginxAddr; rw [h]; rfl
+
+theorem unix_letter_table : ∀ n < 128, isHostChar (Char.ofNat n) = true →
+    (lowerByte (Char.ofNat n) = 'u' ∨ lowerByte (Char.ofNat n) = 'n' ∨ lowerByte (Char.ofNat n) = 'i' ∨
+      lowerByte (Char.ofNat n) = 'x') → lowerByte (Char.ofNat n) = Char.ofNat n := by decide
+
+theorem unix_letter {c : Char} (h : isHostChar c = true)
+    (hl : lowerByte c = 'u' ∨ lowerByte c = 'n' ∨ lowerByte c = 'i' ∨ lowerByte c = 'x') : lowerByte c = c := by
+  have := unix_letter_table c.toNat (epChar_lt (hostChar_ep h))
+  rw [Char.ofNat_toNat] at this
+  exact this h hl
+
+/-- with a host made of host bytes and free of ':', NGINX's case-insensitive `unix:` test fires only for `unix` -/
+theorem unixPrefix_host {h p : Str} (hch : ∀ c ∈ h, isHostChar c = true) (hc : ':' ∉ h)
+    (hu : hasUnixPrefix (h ++ ':' :: p) = true) : h = "unix".toList := by
+  unfold hasUnixPrefix at hu
+  rcases h with _ | ⟨a, _ | ⟨b, _ | ⟨c, _ | ⟨d, _ | ⟨e, rest⟩⟩⟩⟩⟩
+  · simp [List.take, lowerByte, isUpper] at hu
+  · simp only [List.cons_append, List.nil_append, List.take, List.map, beq_iff_eq] at hu
+    have : lowerByte ':' = 'n' := by
+      cases p <;> simpa using congrArg (fun l => l.getD 1 ' ') hu
+    exact absurd this (by decide)
+  · simp only [List.cons_append, List.nil_append, List.take, List.map, beq_iff_eq] at hu
+    have : lowerByte ':' = 'i' := by
+      cases p <;> simpa using congrArg (fun l => l.getD 2 ' ') hu
+    exact absurd this (by decide)
+  · simp only [List.cons_append, List.nil_append, List.take, List.map, beq_iff_eq] at hu
+    have : lowerByte ':' = 'x' := by
+      cases p <;> simpa using congrArg (fun l => l.getD 3 ' ') hu
+    exact absurd this (by decide)
+  · simp only [List.cons_append, List.nil_append, List.take, List.map, beq_iff_eq] at hu
+    have e' : [lowerByte a, lowerByte b, lowerByte c, lowerByte d, lowerByte ':'] = ['u', 'n', 'i', 'x', ':'] := by
+      cases p <;> simpa using hu
+    simp only [List.cons.injEq, and_true] at e'
+    obtain ⟨ea, eb, ec, ed, _⟩ := e'
+    have ha := unix_letter (hch a (by simp)) (.inl ea)
+    have hb := unix_letter (hch b (by simp)) (.inr (.inl eb))
+    have hc' := unix_letter (hch c (by simp)) (.inr (.inr (.inl ec)))
+    have hd := unix_letter (hch d (by simp)) (.inr (.inr (.inr ed)))
+    rw [ha] at ea; rw [hb] at eb; rw [hc'] at ec; rw [hd] at ed
+    subst ea eb ec ed; rfl
+  · simp only [List.cons_append, List.take, List.map, beq_iff_eq] at hu
+    have : lowerByte e = ':' := by simpa using congrArg (fun l => l.getD 4 ' ') hu
+    exact absurd (by simp [lowerByte_colon this]) hc
+
+/-- FULL STRENGTH (after 746dbb2 + 15df172): every accepted optional-port value, after the generator's
+bracketing of a bare IPv6 address, is an NGINX `address[:port]` -/
+theorem validateOpt_nginx_addr {cfg : Cfg} {s : Str} (hlo : 1 ≤ cfg.optLo) (hhi : cfg.optHi ≤ 65535)
+    (h : validateEndpointOptionalPort cfg s = .ok) : nginxAddrOk (nginxAddr s) = true := by
+  obtain ⟨hne, hcases⟩ := validateOpt_ok_cases h
+  -- a value that is a host as a whole: a bare IPv6 address gets its brackets, anything else has no colon
+  have whole : hostOK s = true → nginxAddrOk (nginxAddr s) = true := by
+    intro hk
+    by_cases hc : ':' ∈ s
+    · have hp : parseIP s = true := by
+        simp only [hostOK, Bool.or_eq_true] at hk
+        rcases hk with hk | hk
+        · unfold validateIP at hk
+          by_cases hp : parseIP s = true
+          · exact hp
+          · have : s.isEmpty = false := by cases s <;> simp_all
+            simp [this, hp, Res.isOk] at hk
+        · exact absurd hc (dns_no_colon hk)
+      exact (bracketV6_nginx_addr hp hc : nginxAddrOk (bracketV6 s) = true)
+    · have : nginxAddr s = s := by
+        unfold nginxAddr; rw [contains_false_iff.mpr hc]; rfl
+      rw [this]; exact nginxAddrOk_bare_host hk hc
+  rcases hcases with ⟨k, _, hk⟩ | ⟨hst, p, hs, hpne, hplus, hbr, hux, hp, hk⟩
+  · exact whole hk
+  · by_cases hhe : hst.isEmpty = true
+    · simp only [hhe, if_true] at hk; exact whole hk
+    · simp only [hhe, Bool.false_eq_true, if_false] at hk
+      obtain ⟨npo, pdig⟩ := ngxPortOK_of_portCheck hlo hhi hp hplus
+      rcases splitHostPort_ok hs with ⟨e, hc, _, _, pc, _⟩ | ⟨e, _, hb, _⟩
+      · subst e
+        have hid : nginxAddr (hst ++ ':' :: p) = hst ++ ':' :: p := by
+          unfold nginxAddr parseIP
+          have : (hst ++ ':' :: p).contains ':' = true := by simp
+          rw [this, isV6_one_colon_false hc pc]; rfl
+        rw [hid]
+        have hu : hasUnixPrefix (hst ++ ':' :: p) = false := by
+          cases hx : hasUnixPrefix (hst ++ ':' :: p)
+          · rfl
+          · exact absurd (unixPrefix_host (hostOK_chars hk).2 hc hx) hux
+        exact nginxAddrOk_plain hk hc npo pdig hu
+      · subst e
+        have hc : ':' ∈ hst := by
+          by_cases m : ':' ∈ hst
+          · exact m
+          · exact absurd ⟨by simp, m⟩ hbr
+        have h6 : isV6 hst = true := by
+          simp only [hostOK, Bool.or_eq_true] at hk
+          rcases hk with hk | hk
+          · unfold validateIP at hk
+            by_cases hp' : parseIP hst = true
+            · unfold parseIP at hp'; rw [contains_true_iff.mpr hc] at hp'; simpa using hp'
+            · simp [hhe, hp', Res.isOk] at hk
+          · exact absurd hc (dns_no_colon hk)
+        have hid : nginxAddr ('[' :: (hst ++ ']' :: ':' :: p)) = '[' :: (hst ++ ']' :: ':' :: p) := by
+          have : parseIP ('[' :: (hst ++ ']' :: ':' :: p)) = false := by
+            cases hx : parseIP ('[' :: (hst ++ ']' :: ':' :: p))
+            · rfl
+            · have := parseIP_chars hx '[' (by simp); revert this; decide
+          unfold nginxAddr; rw [this]; simp
+        rw [hid]
+        exact nginxAddrOk_bracket h6 hb npo
 
 end NGF.Cli
